@@ -325,6 +325,24 @@ def _cardinalities(classes) -> List[Tuple[str, str, int]]:
     return out
 
 
+def _array_min_rows(classes) -> int:
+    """`Array.__init__`: `if len(<points>) <= k: raise` (or `< k`) -> the least number of rows an Array can have"""
+    init = _method(_class_ast(classes["Array"]), "__init__")
+    found = []
+    for s in ast.walk(init):
+        if isinstance(s, ast.If) and any(isinstance(b, ast.Raise) for b in s.body) and isinstance(s.test, ast.Compare) \
+                and isinstance(s.test.left, ast.Call) and ast.unparse(s.test.left.func) == "len" and len(s.test.ops) == 1 \
+                and isinstance(s.test.comparators[0], ast.Constant) and isinstance(s.test.comparators[0].value, int):
+            k = s.test.comparators[0].value
+            if isinstance(s.test.ops[0], ast.LtE):
+                found.append(k + 1)
+            elif isinstance(s.test.ops[0], ast.Lt):
+                found.append(k)
+    if len(found) != 1:
+        raise ValueError(f"Array.__init__: expected one guard on the number of points, found {found}")
+    return found[0]
+
+
 def emit_all(emit):
     guard = getattr(emit, "guard", lambda fn, *a, **k: fn(*a, **k))
     classes = _classes()
@@ -358,6 +376,9 @@ def emit_all(emit):
         emit("c09Cardinality", "List (String × String × Nat)", _cardinalities(classes),
              "(class, attribute listed in `parts`, how many the constructor insists on): Face guards, Operation's list literal")
 
+    def g_array():
+        emit("c09ArrayMinRows", "Nat", _array_min_rows(classes), "the least number of rows `Array.__init__` accepts")
+
     # every group is an independent `ast` reading of the current source: one that fails leaves the others in place
-    for g in (g_parts, g_center, g_methods, g_transform, g_card):
+    for g in (g_parts, g_center, g_methods, g_transform, g_card, g_array):
         guard(g)
